@@ -311,6 +311,13 @@ class Interp:
         self.max_unroll = 4096
         self.unit_stack = []
         self.nullable = set()   # term keys produced by nullable sources
+        self.live_stack = []    # per exec_seq: decl ids referenced by the rest of the sequence
+        self.live_base = [0]    # index into live_stack where the current function's frames start
+        self.fn_locals = [frozenset()]
+        self.liveness = True
+        self._suf_cache = {}
+        self._deps_cache = {}
+        self._suf_keep = []
 
     # ---------- memory ----------
     def load(self, st, loc, path, node=None):
@@ -442,7 +449,7 @@ class Interp:
             if op in ('==', '!='):
                 if vkey(a) == vkey(b):
                     return [(st, op == '==')]
-                kk = ('eq',) + tuple(sorted([repr(vkey(a)), repr(vkey(b))]))
+                kk = ('eq',) + tuple(sorted([vkey(a), vkey(b)], key=repr))
                 if kk in st.eqfact:
                     e = st.eqfact[kk]
                     return [(st, e if op == '==' else not e)]
@@ -452,7 +459,7 @@ class Interp:
                 s2.eqfact[kk] = False
                 return [(s1, op == '=='), (s2, op != '==')]
             # ordered comparison of two opaque values: canonical key on (a<b / a<=b)
-            ka, kb = repr(vkey(a)), repr(vkey(b))
+            ka, kb = vkey(a), vkey(b)
             if op in ('>', '>='):
                 ka, kb, op2 = kb, ka, SWAP[op]
             else:
@@ -1046,7 +1053,10 @@ class Interp:
             self.unclassified.add(name)
         st.trace.append(('call', name, args, node_loc(node)))
         qt = node.get('type', {}).get('qualType', '') if node else ''
-        t = Term(('call', name, node.get('id') if node else None, len(st.trace)), ptr=('*' in qt))
+        skey = 'call:%s:%s' % (name, loc_str(node))
+        n = st.sites.get(skey, 0) + 1
+        st.sites[skey] = n
+        t = Term(('call', name, loc_str(node), n), ptr=('*' in qt))
         return [(st, t)]
 
     def lookup(self, fv):
@@ -1084,6 +1094,8 @@ class Interp:
         st.trace.append(('enter', name, args, node_loc(node) if node else None))
         self.depth += 1
         self.frames.append(name)
+        self.live_base.append(len(self.live_stack))
+        self.fn_locals.append(self.local_ids(f))
         try:
             res = self.exec_stmt(body, st)
             out = []
@@ -1127,13 +1139,16 @@ class Interp:
                         sig = self.signature(s1, rv)
                         if sig in seen:
                             self.merged += 1
+                            self.join_facts(seen[sig], s1)
                             continue
-                        seen[sig] = True
+                        seen[sig] = s1
                     out.append((s1, rv))
             return out
         finally:
             self.depth -= 1
             self.frames.pop()
+            self.live_base.pop()
+            self.fn_locals.pop()
 
     def gc(self, s, rv):
         by_loc = {}
@@ -1191,17 +1206,201 @@ class Interp:
             f['_local_ids'] = c
         return c
 
+    FRESH = frozenset(('api', 'call', 'out', 'havoc', 'declen', 'enclen', 'va_arg', 'cbret'))
+    COMPOSITE = frozenset(('+', '-', '*', '/', '%', '&', '|', '^', '<<', '>>', 'neg', 'bnot'))
+
+    def deps(self, key):
+        """(fresh atoms, object locs, implicit-memory atoms) a value/term key depends on; memoised"""
+        c = self._deps_cache.get(key)
+        if c is not None:
+            return c
+        fresh = set()
+        objs = set()
+        mems = set()
+
+        def walk(k):
+            if not isinstance(k, tuple) or not k:
+                return
+            h = k[0]
+            if h == 'term':
+                walkterm(k[1])
+                return
+            if h == 'ref':
+                walkloc(k[1])
+                return
+            if h == 'cmp':
+                walk(k[2])
+                walk(k[3])
+                return
+            if h == 'not':
+                walk(k[1])
+                return
+            if h in ('int', 'null', 'str', 'fn', 'py'):
+                return
+            walkterm(k)
+
+        def walkterm(inner):
+            if not isinstance(inner, tuple) or not inner:
+                return
+            ih = inner[0]
+            if ih in self.COMPOSITE or ih == 'pure':
+                for x in inner[1:]:
+                    if isinstance(x, tuple):
+                        walk(x)
+            elif ih in self.FRESH:
+                fresh.add(inner)
+                for x in inner[1:]:
+                    if isinstance(x, tuple):
+                        walk(x)
+            elif ih == 'mem':
+                mems.add(inner)
+                walkloc(inner[1])
+
+        def walkloc(loc):
+            if not isinstance(loc, tuple) or not loc:
+                return
+            if loc[0] == 'obj':
+                objs.add(loc)
+            elif loc[0] == 'term':
+                walkterm(loc[1])
+        walk(key)
+        c = (frozenset(fresh), frozenset(objs), frozenset(mems))
+        self._deps_cache[key] = c
+        return c
+
+    def live_sets(self, s, rv):
+        live_fresh = set()
+        live_objs = set(self.roots)
+        live_mems = set()
+
+        def add(key):
+            f, o, m = self.deps(key)
+            live_fresh.update(f)
+            live_objs.update(o)
+            live_mems.update(m)
+        for (loc, path), v in s.mem.items():
+            if loc[0] == 'obj':
+                live_objs.add(loc)
+            elif loc[0] == 'term':
+                add(('term', loc[1]))
+            if hasattr(v, 'key'):
+                add(v.key())
+        for z in s.zero:
+            if z[0] == 'obj':
+                live_objs.add(z)
+        if hasattr(rv, 'key'):
+            add(rv.key())
+        for e in s.trace:
+            if self.rule.keep_event(e):
+                for x in e[2:]:
+                    for y in (x if isinstance(x, list) else [x]):
+                        if hasattr(y, 'key'):
+                            add(y.key())
+        return live_fresh, live_objs, live_mems
+
+    def prune_facts(self, s, rv):
+        """drop refinements on values that can no longer be obtained (dead fresh terms, unreachable objects);
+        returns the predicate `resident(key)`: the fact is about a value currently held in the store"""
+        live_fresh, live_objs, live_mems = self.live_sets(s, rv)
+
+        def alive(key):
+            f, o, m = self.deps(key)
+            return f <= live_fresh and o <= live_objs
+
+        def resident(key):
+            f, o, m = self.deps(key)
+            return m <= live_mems
+        for d in (s.ptrfact, s.cons, s.dom):
+            for k in [k for k in d if not alive(k)]:
+                del d[k]
+        for k in [k for k in s.eqfact if not all(alive(x) for x in k[1:] if isinstance(x, tuple))]:
+            del s.eqfact[k]
+        return resident
+
     def signature(self, s, rv):
+        resident = self.prune_facts(s, rv)
         memsig = tuple(sorted((repr(k), repr(vkey(v))) for k, v in s.mem.items()))
-        live = repr(memsig) + repr(vkey(rv))
-        pf = tuple(sorted((repr(k), v) for k, v in s.ptrfact.items() if repr(k) in live))
-        cf = tuple(sorted((repr(k), tuple(v)) for k, v in s.cons.items() if repr(k) in live))
-        ef = tuple(sorted((repr(k), v) for k, v in s.eqfact.items() if any(repr(x) in live for x in k[1:])))
+        pf = tuple(sorted((repr(k), v) for k, v in s.ptrfact.items() if resident(k)))
+        cf = tuple(sorted((repr(k), tuple(v)) for k, v in s.cons.items() if resident(k)))
+        ef = tuple(sorted((repr(k), v) for k, v in s.eqfact.items()
+                          if all(resident(x) for x in k[1:] if isinstance(x, tuple))))
         ev = tuple(repr((e[0], e[1]) + tuple(vkey(x) if hasattr(x, 'key') else x for x in e[2:]))
                    for e in s.trace if self.rule.keep_event(e))
         pc = tuple(repr(p) for p in s.pc) if self.rule.track_pc else ()
         return (repr(vkey(rv)), memsig, tuple(sorted(map(repr, s.zero))), pf, cf, ef,
                 repr(sorted(s.ts.items())), ev, pc, tuple(repr(c[:3]) for c in s.cleanups))
+
+    @staticmethod
+    def join_facts(kept, dup):
+        """states equal on everything resident: keep only the non-resident refinements both agree on"""
+        for name in ('ptrfact', 'cons', 'eqfact'):
+            a = getattr(kept, name)
+            b = getattr(dup, name)
+            for k in [k for k in a if k not in b or b[k] != a[k]]:
+                del a[k]
+        a, b = kept.dom, dup.dom
+        for k in list(a):
+            if k not in b:
+                del a[k]
+            elif a[k] != b[k]:
+                a[k] = tuple(sorted(set(a[k]) | set(b[k])))
+
+    # ---------- liveness of locals (lets states that differ only in dead locals merge) ----------
+    def refs_of(self, n):
+        r = n.get('_refs')
+        if r is None:
+            acc = set()
+            stack = [n]
+            while stack:
+                x = stack.pop()
+                if x.get('kind') == 'DeclRefExpr':
+                    rd = x.get('referencedDecl')
+                    if rd and 'id' in rd:
+                        acc.add(rd['id'])
+                for c in x.get('inner', ()):
+                    if isinstance(c, dict):
+                        stack.append(c)
+            r = frozenset(acc)
+            n['_refs'] = r
+        return r
+
+    def suffix_refs(self, stmts):
+        out = [frozenset()] * (len(stmts) + 1)
+        acc = frozenset()
+        for i in range(len(stmts) - 1, -1, -1):
+            acc = acc | self.refs_of(stmts[i])
+            out[i] = acc
+        return out
+
+    def kill_dead(self, s, own_live):
+        if not self.liveness:
+            return
+        locals_ = self.fn_locals[-1]
+        if not locals_:
+            return
+        live = set(own_live)
+        for fr in self.live_stack[self.live_base[-1]:]:
+            live |= fr
+        uname = self.u.name
+        dead = set()
+        for k in s.mem:
+            l = k[0]
+            if l[0] == 'var' and l[1] == uname and l[2] in locals_ and l[2] not in live:
+                dead.add(l)
+        if not dead:
+            return
+        for c in s.cleanups:
+            dead.discard(c[1])
+        if not dead:
+            return
+        # keep locals whose address is held somewhere
+        for k, v in s.mem.items():
+            if isinstance(v, Ref) and v.loc in dead and k[0] not in dead:
+                dead.discard(v.loc)
+        for k in [k for k in s.mem if k[0] in dead]:
+            del s.mem[k]
+        for l in dead:
+            s.zero.discard(l)
 
     # ---------- statements ----------
     def exec_stmt(self, n, st):
@@ -1215,6 +1414,21 @@ class Interp:
         return m(n, st)
 
     def exec_seq(self, stmts, st, want_last=False, start=0):
+        suf = None
+        if self.liveness and len(stmts) > 1:
+            key = id(stmts)
+            suf = self._suf_cache.get(key)
+            if suf is None:
+                suf = self.suffix_refs(stmts)
+                self._suf_cache[key] = suf
+                self._suf_keep.append(stmts)
+        self.live_stack.append(frozenset())
+        try:
+            return self._exec_seq(stmts, st, want_last, start, suf)
+        finally:
+            self.live_stack.pop()
+
+    def _exec_seq(self, stmts, st, want_last, start, suf):
         outs = []
         work = [(st, start, None)]
         while work:
@@ -1230,7 +1444,16 @@ class Interp:
                 for s2, v in self.ev(n, s):
                     work.append((s2, i + 1, v))
                 continue
-            for s2, ctrl in self.exec_stmt(n, s):
+            if suf is not None:
+                self.live_stack[-1] = suf[i + 1]
+            results = self.exec_stmt(n, s)
+            if len(results) > 1:
+                if suf is not None:
+                    for s2, ctrl in results:
+                        if ctrl is NORMAL:
+                            self.kill_dead(s2, suf[i + 1])
+                results = self.dedupe(results)
+            for s2, ctrl in results:
                 if ctrl is NORMAL:
                     work.append((s2, i + 1, None))
                 elif ctrl[0] == 'goto':
@@ -1369,6 +1592,27 @@ class Interp:
                             idx = i
                             break
                 targets.append((s, idx))
+            elif isinstance(cv, Term) and cv.k in s.dom:
+                vals = self.feasible_vals(s, cv.k)
+                used = set()
+                didx = None
+                for i, (labels, _) in enumerate(flat):
+                    if ('default',) in labels:
+                        didx = i
+                for i, (labels, _) in enumerate(flat):
+                    grp = [v for v in vals if ('case', v) in labels]
+                    used.update(grp)
+                    if grp and i != didx:
+                        s2 = s.clone()
+                        s2.dom[cv.k] = tuple(grp)
+                        targets.append((s2, i))
+                rest = [v for v in vals if v not in used]
+                if didx is not None:
+                    rest = rest + [v for v in vals if ('case', v) in flat[didx][0]]
+                if rest:
+                    s2 = s.clone()
+                    s2.dom[cv.k] = tuple(rest)
+                    targets.append((s2, didx))
             elif isinstance(cv, Term):
                 allc = [c[1] for labels, _ in flat for c in labels if c[0] == 'case']
                 for i, (labels, _) in enumerate(flat):
@@ -1492,6 +1736,13 @@ class Interp:
         return None
 
     def loop(self, st, init, cond, inc, body, n, do=False):
+        self.live_stack.append(self.refs_of(n))
+        try:
+            return self._loop(st, init, cond, inc, body, n, do)
+        finally:
+            self.live_stack.pop()
+
+    def _loop(self, st, init, cond, inc, body, n, do=False):
         outs = []
         sts = [st]
         if init is not None:
@@ -1540,7 +1791,7 @@ class Interp:
                                     if inc is not None:
                                         r2 = self.ev(inc, s5)
                                         s5 = r2[0][0] if r2 else s5
-                                    self.havoc(s5, [cond, inc, body], (tag, 2))
+                                    self.havoc(s5, [cond, inc, body], tag)
                                     for s6, cv2 in (self.ev(cond, s5) if cond is not None else []):
                                         for s7, t2 in self._truthy(s6, cv2, cond):
                                             if not t2:
@@ -1549,7 +1800,31 @@ class Interp:
                                     outs.append((s4, NORMAL))
                                 else:
                                     outs.append((s4, ctrl))
-        return outs
+        return self.dedupe(outs)
+
+    def dedupe(self, outs):
+        if not self.merge or len(outs) < 2:
+            return outs
+        seen = {}
+        res = []
+        for o in outs:
+            s, ctrl = o[0], o[1]
+            if ctrl is NORMAL or ctrl[0] in ('break', 'continue', 'goto'):
+                sig = (repr(ctrl), self.signature(s, Int(0)))
+            elif ctrl[0] == 'return':
+                sig = ('return', self.signature(s, ctrl[1] if ctrl[1] is not None else Int(0)))
+            else:
+                res.append(o)
+                continue
+            if len(o) > 2:
+                sig = sig + (repr(vkey(o[2])) if o[2] is not None else None,)
+            if sig in seen:
+                self.merged += 1
+                self.join_facts(seen[sig], s)
+                continue
+            seen[sig] = s
+            res.append(o)
+        return res
 
     def st_ForStmt(self, n, st):
         inner = n['inner']
